@@ -17,8 +17,8 @@ Other(d) == 3 - d
 DefaultOf(kind) == IF kind = "expected" THEN <<1, 0>> ELSE Empty
 
 Names(kind) ==
-  CASE kind = "optional" -> {"default", "value", "null", "copy_construct", "move_construct", "copy_assign", "move_assign",
-                             "assign_null", "assign_value", "assign_conv", "emplace"}
+  CASE kind = "optional" -> {"default", "value", "value_copy", "value_conv", "null", "copy_construct", "move_construct", "copy_assign", "move_assign",
+                             "assign_null", "assign_value", "assign_conv", "assign_conv_copy", "emplace"}
     [] kind = "expected" -> {"default", "value", "error", "copy_construct", "move_construct", "copy_assign", "move_assign"}
     [] kind = "variant" -> {"default", "value", "copy_construct", "move_construct", "copy_assign", "move_assign", "emplace"}
     [] kind = "manual_box" -> {"value", "destruct"}
@@ -37,11 +37,13 @@ Eff(kind, op, st) ==
   LET d == op.d
       o == Other(op.d) IN
   CASE op.name = "default" -> [st EXCEPT ![d] = DefaultOf(kind)]
-    [] op.name \in {"value", "emplace", "assign_value"} -> [st EXCEPT ![d] = <<Alt(kind, op), op.x>>]
+    \* (value: from an rvalue T; value_copy: from a const T lvalue; value_conv: from a value of another, convertible type)
+    [] op.name \in {"value", "value_copy", "value_conv", "emplace", "assign_value"} -> [st EXCEPT ![d] = <<Alt(kind, op), op.x>>]
     [] op.name \in {"null", "assign_null", "destruct"} -> [st EXCEPT ![d] = Empty]
     [] op.name = "error" -> [st EXCEPT ![d] = <<2, op.x>>]
     \* copying and moving leave the source as it is (a moved-from holder stays engaged)
     [] op.name \in {"copy_construct", "move_construct", "copy_assign", "move_assign"} -> [st EXCEPT ![d] = st[o]]
     \* assignment from an optional of another (convertible) type: engaged with x when i = 1, else disengaged
-    [] op.name = "assign_conv" -> [st EXCEPT ![d] = IF op.i = 1 THEN <<1, op.x>> ELSE Empty]
+    \* (assign_conv takes the source as an rvalue, assign_conv_copy as a const lvalue: two different overloads)
+    [] op.name \in {"assign_conv", "assign_conv_copy"} -> [st EXCEPT ![d] = IF op.i = 1 THEN <<1, op.x>> ELSE Empty]
 =============================================================================
